@@ -187,9 +187,6 @@ Proof.
   destruct r as [j u w|m|b1|j u|j u|j u|j u w|j u|]; cbn; intros H E; inversion E; subst; unfold writable; cbn; lia.
 Qed.
 
-Definition var_class (r : reg) : bool :=
-  match slot r with Some (f, _) => negb (file_eqb f FTmp) | None => false end.
-
 Lemma var_class_dreg a b : dreg_of a = dreg_of b -> var_class a = var_class b.
 Proof. intros H. unfold var_class. rewrite (dreg_slot _ _ H). reflexivity. Qed.
 
